@@ -63,6 +63,42 @@ def check_c17(ctx, led):
             where,
             "option %s (dest %r, action %r) is missing or changed: %s" % (opt, d, action, found.get(d)),
         )
+    # options must be registered on the parser itself with nothing that can reject a command line
+    parser_names = set()
+    for n in ast.walk(f.node):
+        if isinstance(n, ast.Assign) and isinstance(n.value, ast.Call) and norm_src(n.value.func).endswith("ArgumentParser"):
+            for t in n.targets:
+                if isinstance(t, ast.Name):
+                    parser_names.add(t.id)
+    for a in adds:
+        recv = a.func.value
+        d = dest_of(a)
+        led.check(
+            isinstance(recv, ast.Name) and recv.id in parser_names,
+            "C17.flags.parser",
+            "cvss_calculator.main::%s" % short(a, 80),
+            module.where(a),
+            "option %s is not registered directly on the ArgumentParser (e.g. a mutually exclusive group rejects command lines "
+            "that combine its options with exit status 2)" % d,
+        )
+        restrict = [kw.arg for kw in a.keywords if kw.arg in ("required", "choices", "type", "nargs", "const", "metavar") and not (kw.arg == "metavar")]
+        led.check(
+            not restrict,
+            "C17.flags.restrict",
+            "cvss_calculator.main::%s" % short(a, 80),
+            module.where(a),
+            "option %s is declared with %s: argparse may now reject (exit 2) or transform command lines the property covers" % (d, restrict),
+        )
+    for n in ast.walk(f.node):
+        if isinstance(n, ast.Call):
+            nm = n.func.attr if isinstance(n.func, ast.Attribute) else n.func.id if isinstance(n.func, ast.Name) else ""
+            if nm in ("add_mutually_exclusive_group", "add_subparsers", "error", "exit", "_exit", "abort"):
+                led.violation(
+                    "C17.flags.exit",
+                    "cvss_calculator.main::%s" % short(n, 80),
+                    module.where(n),
+                    "%s() can end the program with a non-zero status for a command line built from the listed flags" % nm,
+                )
     order = [d for d, _, _ in dests]
     # ---- version selection
     sel = None
@@ -202,6 +238,25 @@ def check_c17(ctx, led):
                 module.where(head),
                 "version %s prints heading %s / ratings=%s" % (v, txt, sev),
             )
+    # ---- the string handed to the library is the one given / built, untransformed
+    for c in ctor_calls:
+        ok_arg = len(c.args) == 1 and isinstance(c.args[0], ast.Name) and not c.keywords
+        src_ok = False
+        if ok_arg:
+            vname_ = c.args[0].id
+            assigns = [n for n in ast.walk(f.node) if isinstance(n, ast.Assign) and any(isinstance(t, ast.Name) and t.id == vname_ for t in n.targets)]
+            src_ok = bool(assigns) and all(
+                norm_src(a.value) == "args.vector" or (isinstance(a.value, ast.Call) and isinstance(a.value.func, ast.Name) and a.value.func.id == "ask_interactively")
+                for a in assigns
+            )
+        led.check(
+            ok_arg and src_ok,
+            "C17.vector",
+            "cvss_calculator.main::%s argument" % short(c),
+            module.where(c),
+            "the library must receive exactly the -v argument or the interactive builder's result; a transformed string makes the "
+            "CLI report scores where the library API would report an error (or vice versa)",
+        )
     # ---- containment
     anc = exception_hierarchy(ctx)
     for c in ctor_calls:
